@@ -74,7 +74,7 @@ def run_checks(patch, ids):
     results = {}
     try:
         for pid in ids:
-            rc, out = sh(["./verify", "check", pid, "--tier", "quick"], cwd=VERIF, timeout=7200)
+            rc, out = sh(["./verify", "check", pid, "--tier", "quick"], cwd=VERIF, timeout=1800)
             viol = [l for l in out.split("\n") if l.startswith("VIOLATION")]
             results[pid] = {"exit": rc, "violations": viol[:4], "tail": out.strip().split("\n")[-1][:200]}
             print("   %s exit=%d %s" % (pid, rc, viol[0][:120] if viol else ""), flush=True)
